@@ -21,3 +21,38 @@ package kmip
 //@   loop 0 invariant forall k int :: 0 <= k && k <= rangeindex ==> msg.BatchItem[k].RequestPayload == payloads[k]
 //@   loop 0 invariant rangeindex >= 0 ==> isnewloop(msg.BatchItem)
 //@   loop 0 invariant rangeindex < 0 ==> msg.BatchItem == nil
+
+// ---------------------------------------------------------------------------
+// accessors of managed objects (C14): nothing is required of the object's shape beyond a non-nil receiver
+
+//@ func (*KeyBlock).GetMaterial
+//@   requires kb != nil
+//@ func (*KeyBlock).GetBytes
+//@   requires kb != nil
+//@ func (*KeyBlock).GetAttributes
+//@   requires kb != nil
+//@ func (*SymmetricKey).KeyMaterial
+//@   requires sd != nil
+//@ func (*SecretData).Data
+//@   requires sd != nil
+//@ func (*Certificate).X509Certificate
+//@   requires sd != nil
+//@   ensures r1 == nil ==> r0 != nil
+//@ func (*Certificate).PemCertificate
+//@   requires sd != nil
+//@ func (*PublicKey).RSA
+//@   requires key != nil
+//@ func (*PublicKey).ECDSA
+//@   requires key != nil
+//@ func (*PublicKey).CryptoPublicKey
+//@   requires key != nil
+//@ func (*PublicKey).PkixPem
+//@   requires key != nil
+//@ func (*PrivateKey).RSA
+//@   requires key != nil
+//@ func (*PrivateKey).ECDSA
+//@   requires key != nil
+//@ func (*PrivateKey).CryptoPrivateKey
+//@   requires key != nil
+//@ func (*PrivateKey).Pkcs8Pem
+//@   requires key != nil
